@@ -85,6 +85,7 @@ type Config struct {
 	Name        string        // scratch directory prefix
 	PerChild    int           // cases per child (default 400)
 	Workers     int           // concurrent cases inside a child (default 8)
+	Lanes       int           // children running concurrently (default 1)
 	ChildBudget time.Duration // watchdog per child (default 5 min)
 	SoloBudget  time.Duration // watchdog for a suspect re-run alone (default 60 s)
 	Env         []string      // extra environment for children
@@ -315,12 +316,18 @@ type Outcome struct {
 }
 
 // Run executes all cases in children and returns results, attributed fatal events and what could not be decided.
+// cfg.Lanes children run concurrently, each with cfg.Workers concurrent cases. With Workers == 1 a crash has
+// exactly one suspect and is attributed to it without a second run (the check's replay reconfirmation
+// re-executes it in a fresh process anyway); otherwise every suspect is re-run alone.
 func Run(cfg Config, cases []json.RawMessage) Outcome {
 	if cfg.PerChild <= 0 {
 		cfg.PerChild = 400
 	}
 	if cfg.Workers <= 0 {
 		cfg.Workers = 8
+	}
+	if cfg.Lanes <= 0 {
+		cfg.Lanes = 1
 	}
 	if cfg.ChildBudget <= 0 {
 		cfg.ChildBudget = 5 * time.Minute
@@ -332,83 +339,147 @@ func Run(cfg Config, cases []json.RawMessage) Outcome {
 	os.MkdirAll(base, 0o755)
 	defer os.RemoveAll(base)
 	out := Outcome{Results: map[int]Result{}}
+	var mu sync.Mutex
 	pending := make([]int, len(cases))
 	for i := range pending {
 		pending[i] = i
 	}
-	for len(pending) > 0 {
+	inFlight := 0
+	cond := sync.NewCond(&mu)
+	debug := os.Getenv("VERIF_BATCH_DEBUG") != ""
+
+	take := func() []int {
+		mu.Lock()
+		defer mu.Unlock()
+		for len(pending) == 0 && inFlight > 0 {
+			cond.Wait() // another lane may still push cases back
+		}
+		if len(pending) == 0 {
+			return nil
+		}
 		n := cfg.PerChild
 		if n > len(pending) {
 			n = len(pending)
 		}
-		chunk := pending[:n]
+		chunk := append([]int(nil), pending[:n]...)
 		pending = pending[n:]
-		t0 := time.Now()
-		co := runChild(filepath.Join(base, "b"), chunk, cases, cfg.Workers, cfg.ChildBudget, cfg.Env)
-		out.Children++
-		if os.Getenv("VERIF_BATCH_DEBUG") != "" {
-			fmt.Fprintf(os.Stderr, "batch: child with %d cases took %v (abnormal=%v)\n", len(chunk), time.Since(t0), co.abnormal)
+		inFlight++
+		return chunk
+	}
+	done := func(pushBack []int) {
+		mu.Lock()
+		pending = append(append([]int(nil), pushBack...), pending...)
+		inFlight--
+		cond.Broadcast()
+		mu.Unlock()
+	}
+	fatalOf := func(i int, so childOut) Fatal {
+		f := Fatal{Index: i, Kind: "crash", Log: tail(so.log, 6000)}
+		if so.timedOut {
+			f.Kind = "hang"
 		}
-		for i, r := range co.results {
-			if co.done[i] {
-				out.Results[i] = r
+		f.Panic, f.Where = ParseCrash(so.log)
+		if f.Kind == "crash" && f.Panic == "" {
+			f.Panic = head(strings.TrimSpace(so.log), 300)
+		}
+		return f
+	}
+
+	lane := func(l int) {
+		for {
+			chunk := take()
+			if chunk == nil {
+				return
 			}
-		}
-		if !co.abnormal {
-			for _, i := range chunk {
-				if _, ok := out.Results[i]; !ok {
-					out.Inconclusive = append(out.Inconclusive, fmt.Sprintf("case %d: child ended normally without a result", i))
-				}
+			t0 := time.Now()
+			co := runChild(filepath.Join(base, fmt.Sprintf("b%d", l)), chunk, cases, cfg.Workers, cfg.ChildBudget, cfg.Env)
+			if debug {
+				fmt.Fprintf(os.Stderr, "batch: lane %d child with %d cases took %v (abnormal=%v)\n", l, len(chunk), time.Since(t0), co.abnormal)
 			}
-			continue
-		}
-		var suspects, notStarted []int
-		for _, i := range chunk {
-			switch {
-			case co.done[i]:
-			case co.started[i]:
-				suspects = append(suspects, i)
-			default:
-				notStarted = append(notStarted, i)
-			}
-		}
-		sort.Ints(suspects)
-		pending = append(notStarted, pending...)
-		reproduced := false
-		for _, i := range suspects {
-			so := runChild(filepath.Join(base, "solo"), []int{i}, cases, 1, cfg.SoloBudget, cfg.Env)
+			mu.Lock()
 			out.Children++
-			if !so.abnormal {
-				if r, ok := so.results[i]; ok {
+			for i, r := range co.results {
+				if co.done[i] {
 					out.Results[i] = r
 				}
+			}
+			if !co.abnormal {
+				for _, i := range chunk {
+					if _, ok := out.Results[i]; !ok {
+						out.Inconclusive = append(out.Inconclusive, fmt.Sprintf("case %d: child ended normally without a result", i))
+					}
+				}
+			}
+			mu.Unlock()
+			if !co.abnormal {
+				done(nil)
 				continue
 			}
-			reproduced = true
-			f := Fatal{Index: i, Kind: "crash", Log: tail(so.log, 6000)}
-			if so.timedOut {
-				f.Kind = "hang"
+			var suspects, notStarted []int
+			for _, i := range chunk {
+				switch {
+				case co.done[i]:
+				case co.started[i]:
+					suspects = append(suspects, i)
+				default:
+					notStarted = append(notStarted, i)
+				}
 			}
-			f.Panic, f.Where = ParseCrash(so.log)
-			if f.Kind == "crash" && f.Panic == "" {
-				f.Panic = head(strings.TrimSpace(so.log), 300)
-			}
-			out.Fatals = append(out.Fatals, f)
-		}
-		if !reproduced {
-			kind := "crashed"
-			if co.timedOut {
-				kind = "ran into the watchdog"
-			}
-			pl, where := ParseCrash(co.log)
+			sort.Ints(suspects)
 			if len(suspects) == 0 && len(notStarted) == len(chunk) {
 				// nothing was even started: infrastructure problem, do not loop for ever
-				out.Inconclusive = append(out.Inconclusive, fmt.Sprintf("child %s before starting any case: %s", kind, head(co.log, 400)))
-				pending = pending[len(notStarted):]
+				mu.Lock()
+				out.Inconclusive = append(out.Inconclusive, fmt.Sprintf("a child died before starting any case: %s", head(co.log, 400)))
+				mu.Unlock()
+				done(nil)
 				continue
 			}
-			out.Inconclusive = append(out.Inconclusive, fmt.Sprintf("a child %s with cases %v in flight but none of them does it alone (%s at %s)", kind, suspects, pl, where))
+			reproduced := false
+			if cfg.Workers == 1 && len(suspects) == 1 && !co.timedOut {
+				mu.Lock()
+				out.Fatals = append(out.Fatals, fatalOf(suspects[0], co))
+				mu.Unlock()
+				reproduced = true
+			} else {
+				for _, i := range suspects {
+					t1 := time.Now()
+					so := runChild(filepath.Join(base, fmt.Sprintf("solo%d", l)), []int{i}, cases, 1, cfg.SoloBudget, cfg.Env)
+					if debug {
+						pl, where := ParseCrash(so.log)
+						fmt.Fprintf(os.Stderr, "batch: solo case %d took %v abnormal=%v timedOut=%v %s @ %s\n", i, time.Since(t1), so.abnormal, so.timedOut, pl, where)
+					}
+					mu.Lock()
+					out.Children++
+					if !so.abnormal {
+						if r, ok := so.results[i]; ok {
+							out.Results[i] = r
+						}
+					} else {
+						reproduced = true
+						out.Fatals = append(out.Fatals, fatalOf(i, so))
+					}
+					mu.Unlock()
+				}
+			}
+			if !reproduced {
+				kind := "crashed"
+				if co.timedOut {
+					kind = "ran into the watchdog"
+				}
+				pl, where := ParseCrash(co.log)
+				mu.Lock()
+				out.Inconclusive = append(out.Inconclusive, fmt.Sprintf("a child %s with cases %v in flight but none of them does it alone (%s at %s)", kind, suspects, pl, where))
+				mu.Unlock()
+			}
+			done(notStarted)
 		}
 	}
+	var wg sync.WaitGroup
+	for l := 0; l < cfg.Lanes; l++ {
+		wg.Add(1)
+		go func(l int) { defer wg.Done(); lane(l) }(l)
+	}
+	wg.Wait()
+	sort.Slice(out.Fatals, func(i, j int) bool { return out.Fatals[i].Index < out.Fatals[j].Index })
 	return out
 }
